@@ -69,6 +69,8 @@ theorem wire_delegate_ok (w : WireR) (buf : Bytes) (p l : Nat) (h : At (.wire w)
     subst hl0
     refine ⟨.buf ⟨[], 0⟩, w, by simp [WireR.delegate, hseg], (at_buf_iff _ _ _).2 ⟨by simp, by simp⟩, h⟩
   have hlt : w.seg < w.wire.length := by omega
+  have hseg' : ¬ (w.seg ≥ w.wire.length ∨ l > w.absLength - w.absPos) := by
+    rw [WireR.absLength_eq]; omega
   have hpos := hpre.2.1 hlt
   rw [WireR.segAt_eq] at hpos
   have hsucc := accSz_succ w.wire w.seg hlt
@@ -80,7 +82,7 @@ theorem wire_delegate_ok (w : WireR) (buf : Bytes) (p l : Nat) (h : At (.wire w)
       · simp only [] at hh; omega
     refine ⟨.buf ⟨((w.wire[w.seg]?.getD []).drop w.pos).take l, 0⟩, { w with pos := w.pos + l }, ?_,
       (at_buf_iff _ _ _).2 ⟨?_, by omega⟩, at_wire_step h rfl rfl (by simp [WireR.absPos]; omega) hpre'⟩
-    · simp only [WireR.delegate, if_neg hseg, WireR.segAt_eq, if_pos hc]
+    · simp only [WireR.delegate, if_neg hseg', WireR.segAt_eq, if_pos hc]
     · congr 1
       rw [hb2 l]
       unfold WireR.absPos
@@ -106,7 +108,7 @@ theorem wire_delegate_ok (w : WireR) (buf : Bytes) (p l : Nat) (h : At (.wire w)
   · -- the sub-range ends at a segment end: shared wire
     refine ⟨.wire { wire := w.wire.take (r'.seg + 1), seg := w.seg, pos := w.pos,
                     base := w.pos + accSz w.wire w.seg }, r', ?_, ?_, hat'⟩
-    · simp only [WireR.delegate, if_neg hseg, WireR.segAt_eq, if_neg hc, a1, a2, if_pos hend]
+    · simp only [WireR.delegate, if_neg hseg', WireR.segAt_eq, if_neg hc, a1, a2, if_pos hend]
     · have hlen : (w.wire.take (r'.seg + 1)).length = r'.seg + 1 := by
         rw [List.length_take]; omega
       have hget : (w.wire.take (r'.seg + 1))[w.seg]?.getD [] = w.wire[w.seg]?.getD [] := by
@@ -130,7 +132,7 @@ theorem wire_delegate_ok (w : WireR) (buf : Bytes) (p l : Nat) (h : At (.wire w)
     refine ⟨.wire { wire := (w.wire[w.seg]?.getD []).drop w.pos ::
                       ((w.wire.drop (w.seg + 1)).take (r'.seg - w.seg - 1) ++ [(w.wire[r'.seg]?.getD []).take r'.pos]),
                     seg := 0, pos := 0, base := 0 }, r', ?_, ?_, hat'⟩
-    · simp only [WireR.delegate, if_neg hseg, WireR.segAt_eq, if_neg hc, a1, a2, if_neg hend, hnw, hlast]
+    · simp only [WireR.delegate, if_neg hseg', WireR.segAt_eq, if_neg hc, a1, a2, if_neg hend, hnw, hlast]
     · have hne : NE ((w.wire[w.seg]?.getD []).drop w.pos ::
           ((w.wire.drop (w.seg + 1)).take (r'.seg - w.seg - 1) ++ [(w.wire[r'.seg]?.getD []).take r'.pos])) := by
         rw [NE_iff]
